@@ -42,15 +42,16 @@ type kitOpts struct {
 }
 
 type stub struct {
-	name      string
-	host      string
-	mode      string // ok, 404, 500, refuse, abort
-	probeMode string // ok, 500, refuse
-	hits      int    // requests actually sent to this backend (client traffic)
-	probes    int    // probes actually sent
-	hold      bool   // hold client requests in flight until open
-	open      int    // number of held requests that may proceed
-	inflight  int
+	name          string
+	host          string
+	mode          string // ok, 404, 500, refuse, abort
+	probeMode     string // ok, 500, refuse
+	hits          int    // requests actually sent to this backend (client traffic)
+	probes        int    // probes actually sent
+	releaseProbes bool   // ends hanging probes
+	hold          bool   // hold client requests in flight until open
+	open          int    // number of held requests that may proceed
+	inflight      int
 }
 
 type kit struct {
@@ -115,6 +116,17 @@ func (rt *stubRT) RoundTrip(req *http.Request) (*http.Response, error) {
 			}
 		}
 		st.probes++
+		if st.probeMode == "hang" {
+			// the backend accepted the probe and does not answer: only the request's own
+			// context (or the harness) ends it, as with a real transport
+			if s := vrt.Cur(); s != nil {
+				s.WaitFor("probe-hanging:"+st.name, func() bool { return req.Context().Err() != nil || st.releaseProbes })
+			}
+			if err := req.Context().Err(); err != nil {
+				return nil, err
+			}
+			return mkResp(req, 200, "late"), nil
+		}
 		switch st.probeMode {
 		case "500":
 			return mkResp(req, 500, "probe fail"), nil
